@@ -56,6 +56,7 @@ func (P) Monitor(c *hx.CaseRun) []hx.Failure {
 	written := map[int]bool{}
 	var off int64
 	raw, dirty, lost, writesAfterCrash, crashed := false, false, false, false, false
+	tornRotated := false // a rotation after a crash that lost unsynced bytes: a record torn by the crash now ends a rotated file
 	cutHead, midDamage, flipDamage := false, false, false
 	maxIdx := 0
 	headMissing := false // between RotateFile and the next flush the head path does not exist (the node never reads then)
@@ -108,12 +109,18 @@ func (P) Monitor(c *hx.CaseRun) []hx.Failure {
 			if ans == "ok" {
 				maxIdx++
 				headMissing = true
+				if lost {
+					tornRotated = true
+				}
 			}
 			diskValid = false
 		case "tick":
 			if ans == "rotated=true" {
 				maxIdx++
 				headMissing = true
+				if lost {
+					tornRotated = true
+				}
 			} else if lim, _ := argInt(toks, "limit"); lim != 0 && ans == "rotated=false" {
 				headMissing = false
 			}
@@ -252,7 +259,9 @@ func (P) Monitor(c *hx.CaseRun) []hx.Failure {
 			switch {
 			case expected && !found:
 				class := "marker-not-found"
-				if !aligned {
+				if !aligned && tornRotated {
+					class = "wal-search-torn-tail" // the same torn record, one file further back
+				} else if !aligned {
 					class = "wal-rotate-unflushed-straddle"
 				} else if !ends[D] && len(diskSizes) > 0 {
 					class = "wal-search-torn-tail"
